@@ -343,6 +343,32 @@ def h_collapse(env, n, qubit, result, order):
     env.check_vec_eq([x * r for x in list(sv)], proj, f"collapsed vector * sqrt(p) == projection (qubit {qubit}, {order})")
 
 
+def h_collapse_method(env, n, qubit, result, order, via):
+    """the Backend METHODS (collapse_statevector_to_desired_measurement / perform_measurement) must use the order the
+    backend advertises; checked on a minimal Backend subclass advertising either order"""
+    from tangelo.linq.target.backend import Backend
+
+    class B(Backend):
+        def simulate_circuit(self, *a, **k):
+            raise NotImplementedError
+
+        @staticmethod
+        def backend_info():
+            return {"statevector_available": True, "statevector_order": order, "noisy_simulation": False}
+    b = B()
+    psi = env.state(n, "psi")
+    if via == "collapse":
+        sv, p = b.collapse_statevector_to_desired_measurement(as_array(env, psi), qubit, result)
+    else:
+        out, sv, p = b.perform_measurement(as_array(env, psi), qubit, str(result))
+        env.check_same(out, str(result), "perform_measurement returns the requested outcome")
+    q = qubit if order == "lsq_first" else n - 1 - qubit
+    proj, pb = R.project(psi, n, q, result)
+    env.check_eq(p, pb, f"Backend.{via}: probability for qubit {qubit} on a backend advertising {order}")
+    r = _sqrt(env, p)
+    env.check_vec_eq([x * r for x in list(sv)], proj, f"Backend.{via}: collapsed vector * sqrt(p) == projection (qubit {qubit}, {order})")
+
+
 def h_split(env, n_meas, n_q, keys, desired):
     from tangelo.toolboxes.post_processing.post_selection import split_frequency_dict, split_frequency_dict_for_last_n_digits
     freqs = {k: env.real(f"f{k}", lo=0, hi=1) for k in keys}
@@ -445,6 +471,13 @@ def shapes(tier, seed):
             for res in (0, 1):
                 for order in ("lsq_first", "msq_first"):
                     out.append(Shape(f"collapse/n{n}q{q}r{res}/{order}", h_collapse, dict(n=n, qubit=q, result=res, order=order), modules=MODS))
+    for order in ("lsq_first", "msq_first"):
+        for q in (0, 1, 2):
+            for via in ("collapse", "measure"):
+                if tier == "quick" and (q == 1 or (via == "measure" and q == 2)):
+                    continue
+                out.append(Shape(f"collapse_method/{via}/n3q{q}/{order}", h_collapse_method,
+                                 dict(n=3, qubit=q, result=(q + 1) % 2, order=order, via=via), modules=MODS))
     out.append(Shape("split/1+2", h_split, dict(n_meas=1, n_q=2, keys=["000", "011", "101", "110", "111"], desired=None), modules=MODS))
     out.append(Shape("split/2+1", h_split, dict(n_meas=2, n_q=1, keys=["000", "011", "101", "110"], desired=None), modules=MODS))
     out.append(Shape("split/1+2/desired", h_split, dict(n_meas=1, n_q=2, keys=["000", "011", "101", "110", "111"], desired="1"), modules=MODS))
